@@ -409,6 +409,8 @@ impl FilePersist {
     /// Used when WAL size exceeds the configured limit.
     fn flush_all(&self) -> StorageResult<()> {
         let dirty_shards: Vec<String> = {
+            #[cfg(feature = "verif-hooks")]
+            crate::verif_hooks::before_lock("persist.flush_all.shards", &|| self.shards.try_read().is_some());
             let shards = self.shards.read();
             shards
                 .iter()
@@ -435,11 +437,15 @@ impl PersistBackend for FilePersist {
         match self.config.durability_mode {
             DurabilityMode::Immediate => {
                 // Write to WAL with immediate sync (safest)
+                #[cfg(feature = "verif-hooks")]
+                crate::verif_hooks::before_lock("persist.append.wal", &|| self.wal.try_lock().is_some());
                 let mut wal = self.wal.lock();
                 wal.append_batch(shard, updates)?;
             }
             DurabilityMode::Batched => {
                 // Write to WAL without sync (faster, batched durability)
+                #[cfg(feature = "verif-hooks")]
+                crate::verif_hooks::before_lock("persist.append.wal", &|| self.wal.try_lock().is_some());
                 let mut wal = self.wal.lock();
                 wal.append_batch_buffered(shard, updates)?;
             }
@@ -451,6 +457,8 @@ impl PersistBackend for FilePersist {
 
         // Add to buffer
         let should_flush = {
+            #[cfg(feature = "verif-hooks")]
+            crate::verif_hooks::before_lock("persist.append.shards", &|| self.shards.try_write().is_some());
             let mut shards = self.shards.write();
             let state = shards
                 .entry(shard.to_string())
@@ -476,6 +484,8 @@ impl PersistBackend for FilePersist {
             self.flush(shard)?;
         } else if self.config.max_wal_size_bytes > 0 {
             // Check WAL size - force flush all dirty shards if WAL is too large
+            #[cfg(feature = "verif-hooks")]
+            crate::verif_hooks::before_lock("persist.append.walsize", &|| self.wal.try_lock().is_some());
             let wal_size = self.wal.lock().file_size();
             if wal_size > self.config.max_wal_size_bytes {
                 tracing::info!(
@@ -491,6 +501,8 @@ impl PersistBackend for FilePersist {
     }
 
     fn read(&self, shard: &str, since: u64) -> StorageResult<Vec<Update>> {
+        #[cfg(feature = "verif-hooks")]
+        crate::verif_hooks::before_lock("persist.read.shards", &|| self.shards.try_read().is_some());
         let shards = self.shards.read();
 
         let state = shards
@@ -517,6 +529,8 @@ impl PersistBackend for FilePersist {
         // Flush first to ensure all data is in batches
         self.flush(shard)?;
 
+        #[cfg(feature = "verif-hooks")]
+        crate::verif_hooks::before_lock("persist.compact.shards", &|| self.shards.try_write().is_some());
         let mut shards = self.shards.write();
         let state = shards
             .get_mut(shard)
@@ -554,11 +568,15 @@ impl PersistBackend for FilePersist {
             });
         }
 
+        #[cfg(feature = "verif-hooks")]
+        crate::verif_hooks::point("persist.compact.batch_written");
         // Step 2: Update metadata atomically (write-to-temp+rename in save_shard_meta)
         // After this succeeds, metadata points to the new batch only.
         state.meta.advance_since(new_since);
         self.save_shard_meta(&state.meta)?;
 
+        #[cfg(feature = "verif-hooks")]
+        crate::verif_hooks::point("persist.compact.meta_saved");
         // Step 3: Delete old batch files LAST (safe - metadata no longer references them)
         // If we crash here, we have orphaned files but no data loss.
         for batch_ref in &old_batches {
@@ -574,11 +592,15 @@ impl PersistBackend for FilePersist {
     }
 
     fn list_shards(&self) -> StorageResult<Vec<String>> {
+        #[cfg(feature = "verif-hooks")]
+        crate::verif_hooks::before_lock("persist.list_shards.shards", &|| self.shards.try_read().is_some());
         let shards = self.shards.read();
         Ok(shards.keys().cloned().collect())
     }
 
     fn shard_info(&self, shard: &str) -> StorageResult<ShardInfo> {
+        #[cfg(feature = "verif-hooks")]
+        crate::verif_hooks::before_lock("persist.shard_info.shards", &|| self.shards.try_read().is_some());
         let shards = self.shards.read();
         let state = shards
             .get(shard)
@@ -587,6 +609,8 @@ impl PersistBackend for FilePersist {
     }
 
     fn ensure_shard(&self, shard: &str) -> StorageResult<()> {
+        #[cfg(feature = "verif-hooks")]
+        crate::verif_hooks::before_lock("persist.ensure_shard.shards", &|| self.shards.try_write().is_some());
         let mut shards = self.shards.write();
         if !shards.contains_key(shard) {
             let meta = ShardMeta::new(shard.to_string());
@@ -608,6 +632,8 @@ impl PersistBackend for FilePersist {
     }
 
     fn flush(&self, shard: &str) -> StorageResult<()> {
+        #[cfg(feature = "verif-hooks")]
+        crate::verif_hooks::before_lock("persist.flush.shards", &|| self.shards.try_write().is_some());
         let mut shards = self.shards.write();
         let state = shards
             .get_mut(shard)
@@ -629,6 +655,8 @@ impl PersistBackend for FilePersist {
             len: batch.len(),
         };
 
+        #[cfg(feature = "verif-hooks")]
+        crate::verif_hooks::point("persist.flush.batch_written");
         // Step 2: Update metadata and save atomically
         state.meta.add_batch(batch_ref);
         state.buffer.clear();
@@ -639,8 +667,12 @@ impl PersistBackend for FilePersist {
             return Err(e);
         }
 
+        #[cfg(feature = "verif-hooks")]
+        crate::verif_hooks::point("persist.flush.meta_saved");
         // Step 3: Remove WAL entries LAST (safe - metadata already points to batch)
         {
+            #[cfg(feature = "verif-hooks")]
+            crate::verif_hooks::before_lock("persist.flush.wal", &|| self.wal.try_lock().is_some());
             let mut wal = self.wal.lock();
             wal.remove_shard_entries(shard)?;
         }
@@ -651,10 +683,14 @@ impl PersistBackend for FilePersist {
     fn delete_shard(&self, shard: &str) -> StorageResult<()> {
         // Step 1: Remove from in-memory shard map (fast, under write lock)
         let removed_state = {
+            #[cfg(feature = "verif-hooks")]
+            crate::verif_hooks::before_lock("persist.delete_shard.shards", &|| self.shards.try_write().is_some());
             let mut shards = self.shards.write();
             shards.remove(shard)
         }; // write lock released - other shards unblocked
 
+        #[cfg(feature = "verif-hooks")]
+        crate::verif_hooks::point("persist.delete_shard.unmapped");
         // Step 2: Delete batch files FIRST (crash-safe ordering)
         // If we crash here, metadata still references them but they're gone.
         // On next startup, load_shards will see missing files and handle gracefully.
@@ -674,10 +710,14 @@ impl PersistBackend for FilePersist {
         // Step 3: Selective WAL filter - remove only this shard's entries
         // Other shards' WAL data is PRESERVED (no need to flush them)
         {
+            #[cfg(feature = "verif-hooks")]
+            crate::verif_hooks::before_lock("persist.delete_shard.wal", &|| self.wal.try_lock().is_some());
             let mut wal = self.wal.lock();
             wal.remove_shard_entries(shard)?;
         }
 
+        #[cfg(feature = "verif-hooks")]
+        crate::verif_hooks::point("persist.delete_shard.wal_filtered");
         // Step 4: Delete metadata file LAST (crash-safe ordering)
         // After this, the shard is fully removed from disk.
         let meta_path = self
